@@ -200,6 +200,7 @@ CORPUS_EXPECT = {
     "usage-instance-renamed-to-consul": ("kindnames", "instance-redefined"),
     "topology-upstream-dropped": ("topology", "upstream-dropped-or-instance-redefined-or-wildcard-gateway"),
     "gateway-ingress-wildcard-order": ("gateway-services", "wildcard-order"),
+    "topology-mixed-case-node-respelled": ("topology", "node-respelled"),
     # regression cases of the repaired findings (8e1bd1c, acb191c, 10e7cca, 0bb54ea, a882280, 948377c): any oracle
     # failure of the repaired view on them has no excluded class and is therefore reported as a VIOLATION with
     # the corpus history as its replay
@@ -208,6 +209,9 @@ CORPUS_EXPECT = {
     "kindnames-name-shared-across-kinds": None,
     "gateway-listed-service-overwritten-by-wildcard": None,
     "gateway-service-in-two-rows": None,
+    # mixed-case names (oracle-only universe): a proxy with upstreams on a node with upper-case letters,
+    # deregistered by service and by node
+    "topology-mixed-case-node": None,
 }
 
 
